@@ -11,6 +11,7 @@ import (
 	"bytes"
 	"context"
 	"fmt"
+	"io"
 	"os"
 	"os/exec"
 	"path/filepath"
@@ -43,7 +44,7 @@ func appRacePass(id, repo, bdir string) (info map[string]interface{}, viols []Vi
 		book.WriteString(fmt.Sprintf("food/%03d:\n  cal: %d\n  fat: 1\n  el/%d: 2\n", r, r, r%7))
 	}
 	book.WriteString("menu:\n  food/001: 2\n  food/002: 1\n")
-	for d := 0; d < 700; d++ {
+	for d := 0; d < 1600; d++ {
 		date := fmt.Sprintf("20%02d/%02d/%02d", 21+d/336, 1+(d/28)%12, 1+d%28)
 		long.WriteString(fmt.Sprintf("%s:\n  food/%03d: 1\n  # n: %d\n  unknown/%d: 2\n  menu: 0.5\n", date, d%90, d, d%5))
 		if d == 320 {
@@ -96,7 +97,24 @@ func appRacePass(id, repo, bdir string) (info map[string]interface{}, viols []Vi
 				cmd.Env = []string{"HOME=" + cmd.Dir, "TZ=UTC", "PATH=/usr/bin:/bin", "GORACE=atexit_sleep_ms=0 halt_on_error=0"}
 				var so, se bytes.Buffer
 				cmd.Stdout, cmd.Stderr = &so, &se
-				err := cmd.Run()
+				var err error
+				if r == reps-1 {
+					// the last run writes into a pipe nobody reads for a while (`hranoprovod-cli ... | (sleep 0.3; cat)`): a
+					// report beyond the pipe's 64 KiB keeps the writing goroutine parked in its write
+					cmd.Stdout = nil
+					pipe, perr := cmd.StdoutPipe()
+					if perr == nil {
+						if err = cmd.Start(); err == nil {
+							time.Sleep(300 * time.Millisecond)
+							io.Copy(&so, pipe)
+							err = cmd.Wait()
+						}
+					} else {
+						err = perr
+					}
+				} else {
+					err = cmd.Run()
+				}
 				code := 0
 				if err != nil {
 					code = -1
